@@ -48,6 +48,9 @@ ANCHORS = [
     ("pyanalyze/value.py", "_unpack_sequence_value"),
     ("pyanalyze/value.py", "concrete_values_from_iterable"),
     ("pyanalyze/stacked_scopes.py", "FunctionScope.get_local"),
+    ("pyanalyze/stacked_scopes.py", "FunctionScope.set"),
+    ("pyanalyze/stacked_scopes.py", "FunctionScope._add_composite"),
+    ("pyanalyze/name_check_visitor.py", "NameCheckVisitor._get_composite"),
     ("pyanalyze/name_check_visitor.py", "NameCheckVisitor.constraint_from_condition"),
     ("pyanalyze/name_check_visitor.py", "NameCheckVisitor._constraint_from_compare_op"),
     ("pyanalyze/stacked_scopes.py", "FunctionScope.subscope"),
@@ -69,7 +72,11 @@ RULE = (
     "comparisons, subscripts with literal indices and slices, dict subscripts, calls to annotated and generic helper "
     "functions, to earlier generated functions and to a few builtins (len, isinstance, str, int, bool, abs, min, max, "
     "sorted, list, tuple); each function is called on <= 8 (quick) argument tuples drawn from the declared parameter types. "
-    "No mutation of containers, no del, no nested functions; every loop is bounded. Functions in which pyanalyze reports "
+    "No mutation of containers (except in the COMPOSITE stream: functions over dict-of-dict / list-of-list / dict-of-list "
+    "parameters and small classes with nested attributes, with narrowing tests on, stores to and reads of composites "
+    "x[k1][k2][k3] / x.a.b.c of depth 1-3 and assignments to every proper prefix, in straight-line code, if/else and for "
+    "loops; mutation only through the parameter's own name, every stored container is a fresh display / constructor call), "
+    "no del, no nested functions; every loop is bounded. Functions in which pyanalyze reports "
     "any diagnostic are not judged (the property speaks about values, not diagnostics); executions in which a callee "
     "receives an argument outside its declared type are cut at that call. A case = one (function, argument tuple) execution; "
     "non-trivial = the execution recorded at least one value at a node whose inferred type is not Any; distinct = distinct "
@@ -117,14 +124,16 @@ def Un(*ts):
 
 
 def run_driver(lines):
-    """The Lean driver; one retry after a rebuild (other checks regenerate / rebuild shared modules concurrently, which makes
+    """The Lean driver; a few retries after a rebuild (other checks regenerate / rebuild shared modules concurrently, which makes
     an olean disappear for a moment)."""
-    try:
-        return lean.run_driver("C01", lines)
-    except lean.DriverError:
-        time.sleep(5)
-        lean.build([LEAN_PROP] + LEAN_TARGETS)
-        return lean.run_driver("C01", lines)
+    for attempt in range(4):
+        try:
+            return lean.run_driver("C01", lines)
+        except lean.DriverError:
+            if attempt == 3:
+                raise
+            time.sleep(10 * (attempt + 1))
+            lean.build([LEAN_PROP] + LEAN_TARGETS)
 
 
 # ------------------------------------------------------------------ source text of terms
@@ -194,7 +203,8 @@ def obj_src(o):
 
 PRELUDE = '''from typing import Any, Literal, Union, Optional, NoReturn, Sequence, Iterable, Mapping, AbstractSet
 from typing_extensions import Unpack
-from harness.universe import A, B, Cc, D, Color, IE
+from harness.universe import A, B, Cc, D, Color, IE, Fl
+from harness.props.c01_objs import Leaf, Mid, Top
 from harness.common.values import TYPEVARS
 T0, T1, T2 = TYPEVARS
 def ident(x: T0) -> T0:
@@ -1517,7 +1527,7 @@ def xshow(t):
 
 
 # ------------------------------------------------------------------ checking a module with pyanalyze, keeping every check-phase Value
-REC_TYPES = (ast.Name, ast.Subscript, ast.Call, ast.BinOp, ast.IfExp, ast.Compare, ast.BoolOp, ast.UnaryOp)
+REC_TYPES = (ast.Name, ast.Subscript, ast.Attribute, ast.Call, ast.BinOp, ast.IfExp, ast.Compare, ast.BoolOp, ast.UnaryOp)
 
 
 class RecVisitor(NameCheckVisitor):
@@ -1531,7 +1541,7 @@ class RecVisitor(NameCheckVisitor):
 
     def composite_from_node(self, node):
         comp = NameCheckVisitor.composite_from_node(self, node)
-        if self.state is VisitorState.check_names and isinstance(node, (ast.Name, ast.Subscript)):
+        if self.state is VisitorState.check_names and isinstance(node, (ast.Name, ast.Subscript, ast.Attribute)):
             self._c01_vals.setdefault(id(node), []).append(comp.value)
         return comp
 
@@ -1757,6 +1767,23 @@ def gen_args(rng, ptypes, n, plain=False):
     return out
 
 
+def build_args(objs):
+    """Fresh argument objects: Obj terms, or {"src": [expression text, ...]} for objects the harness builds (nested
+    containers / instances of harness.props.c01_objs classes, rebuilt for every execution because the function may
+    mutate them through its own parameter)."""
+    if isinstance(objs, dict):
+        from harness.props import c01_objs
+        ns = {"Leaf": c01_objs.Leaf, "Mid": c01_objs.Mid, "Top": c01_objs.Top}
+        return [eval(e, ns) for e in objs["src"]]
+    return [V.obj_to_py(o) for o in objs]
+
+
+def args_text(objs):
+    if isinstance(objs, dict):
+        return ", ".join(objs["src"])
+    return ", ".join(repr(V.obj_to_py(o)) for o in objs)
+
+
 def fn_ranges(tree):
     return {st.name: (st.lineno, st.end_lineno) for st in tree.body if isinstance(st, ast.FunctionDef)}
 
@@ -1812,7 +1839,7 @@ def judge_module(fns, arg_sets, stats, on_exec=None):
             continue
         stats["fn_judged"] = stats.get("fn_judged", 0) + 1
         for objs in arg_sets.get(name, []):
-            args = [V.obj_to_py(o) for o in objs]
+            args = build_args(objs)
             log, exc = runner.run(name, args)
             stats["executions"] = stats.get("executions", 0) + 1
             if exc:
@@ -2367,7 +2394,8 @@ def find_fail_node(fn_src, f):
     fn = tree.body[0]
     for n in ast.walk(fn):
         if isinstance(n, REC_TYPES) and getattr(n, "lineno", None) == f["lineno"] + 1 and n.col_offset == f["col"] and \
-                type(n).__name__ == f["kind"]:
+                type(n).__name__ == f["kind"] and isinstance(getattr(n, "ctx", ast.Load()), ast.Load) and \
+                ast.unparse(n) == f["node"]:
             return fn, n
     return fn, None
 
@@ -2376,8 +2404,10 @@ def fail_var(node):
     """The variable a failing evaluation is about: the name itself, or the base name of a subscript."""
     if isinstance(node, ast.Name):
         return node.id
-    if isinstance(node, ast.Subscript) and isinstance(node.value, ast.Name):
-        return node.value.id
+    while isinstance(node, (ast.Subscript, ast.Attribute)):
+        node = node.value
+        if isinstance(node, ast.Name):
+            return node.id
     return None
 
 
@@ -2985,6 +3015,71 @@ def conforms_to(cls, f):
     return True
 
 
+def access_path(node):
+    """(root name, keys) of a chain of literal subscripts / attributes over a name; None if it is not one."""
+    keys = []
+    while isinstance(node, (ast.Subscript, ast.Attribute)):
+        if isinstance(node, ast.Attribute):
+            keys.append(node.attr)
+        elif isinstance(node.slice, ast.Constant):
+            keys.append(node.slice.value)
+        else:
+            return None
+        node = node.value
+    if isinstance(node, ast.Name):
+        return node.id, tuple(reversed(keys))
+    return None
+
+
+def composite_facts(fnode, node):
+    """(inLoop, staleParent, joinReset) for a failing read `node` of a composite (or of the root name)."""
+    ap = access_path(node)
+    if ap is None:
+        return None
+    root, F = ap
+    stores = []   # (statement, path) of every assignment to root or to one of its composites
+    for st in ast.walk(fnode):
+        if isinstance(st, (ast.Assign, ast.AugAssign, ast.AnnAssign)):
+            for tg in (st.targets if isinstance(st, ast.Assign) else [st.target]):
+                tp = access_path(tg)
+                if tp is not None and tp[0] == root:
+                    stores.append((st, tp[1]))
+    if not any(len(pth) > 0 for _, pth in stores) and not F:
+        return None   # a plain name in a function without composites: not this stream's business
+
+    def inside(x, block):
+        return any(n is x for b in block for n in ast.walk(b))
+
+    def mentions_root_test(lp):
+        for n in ast.walk(lp):
+            if isinstance(n, (ast.If, ast.While, ast.IfExp, ast.Assert)) and root in _reads(n.test):
+                return True
+        return False
+
+    in_loop = False
+    for lp in ast.walk(fnode):
+        if isinstance(lp, (ast.For, ast.While)):
+            effect = any(inside(st, [lp]) for st, _ in stores) or mentions_root_test(lp)
+            if effect and (inside(node, [lp]) or lp.end_lineno < node.lineno):
+                in_loop = True
+    stale = any(len(pth) > len(F) and pth[:len(F)] == F and st.lineno <= node.lineno for st, pth in stores)
+    join_reset = False
+    for cond in ast.walk(fnode):
+        blocks = []
+        if isinstance(cond, ast.If):
+            blocks = [cond.body, cond.orelse]
+        elif isinstance(cond, ast.Match):
+            blocks = [c.body for c in cond.cases]
+        elif isinstance(cond, ast.Try):
+            blocks = [cond.body] + [h.body for h in cond.handlers] + [cond.orelse]
+        for blk in blocks:
+            if not blk or inside(node, blk) or cond.lineno > node.lineno:
+                continue
+            if any(inside(st, blk) and len(pth) < len(F) and F[:len(pth)] == pth for st, pth in stores):
+                join_reset = True
+    return in_loop, stale, join_reset
+
+
 def classify_requests(failures, fn_src_of):
     """Driver lines for the failures: [(failure index, line, python-mirror answer)]."""
     reqs = []
@@ -2997,6 +3092,11 @@ def classify_requests(failures, fn_src_of):
         fnode, node = find_fail_node(src, f)
         if node is None:
             continue
+        facts = composite_facts(fnode, node) if isinstance(node, (ast.Name, ast.Subscript, ast.Attribute)) else None
+        if facts is not None and any(facts):
+            mirror = (["compositeInLoop"] if facts[0] else []) + (["compositeStaleParent"] if facts[1] else []) + \
+                (["compositeJoinAfterReset"] if facts[2] else [])
+            reqs.append((i, "comp %d %d %d" % facts, mirror))
         v = fail_var(node)
         if v is not None:
             line = "cls " + skeleton(fnode, node, v)
@@ -3037,7 +3137,7 @@ def classify(ctx, failures, fn_src_of, with_model=True):
                 ctx.disagree("cls", {"line": line}, mirror, answers[j])
         else:
             ans = mirror or []
-        f["classes"] = (ans + f.get("classes", [])) if line.startswith("subl") else (f.get("classes", []) + ans)
+        f["classes"] = (ans + f.get("classes", [])) if line.startswith(("subl", "comp")) else (f.get("classes", []) + ans)
         if line.startswith("cls"):
             f["skeleton"] = line
     for f in failures:
@@ -3072,7 +3172,7 @@ def report(ctx, failures, fns_of, shrink_budget):
                 small, deps = shrink(fn, fns, f["args"], lambda fl: bool(fl) and fl[0]["node"] == want, max_checks=ctx.n(120, 250))
             except Exception:
                 small = fn
-        case = {"fn": small["name"], "args": f["args"], "call": "%s(%s)" % (small["name"], ", ".join(repr(V.obj_to_py(o)) for o in f["args"])),
+        case = {"fn": small["name"], "args": f["args"], "call": "%s(%s)" % (small["name"], args_text(f["args"])),
                 "src": "\n".join(d["src"] for d in deps + [small]), "node": f["node"], "value": f["value"], "inferred": f["inferred"],
                 "fns": [fn_json(d) for d in deps + [small]], "skeleton": f.get("skeleton"), "classes": f.get("classes", [])}
         ctx.candidate(case, f["what"], cls=f["cls"], conforms=f["conforms"], stream="exec")
@@ -3084,6 +3184,202 @@ def totuple(x):
             return tuple(totuple(y) if i else y for i, y in enumerate(x))
         return [totuple(y) for y in x]
     return x
+
+
+def args_from_json(a):
+    return a if isinstance(a, dict) else [totuple(o) for o in a]
+
+
+# ------------------------------------------------------------------ the COMPOSITE stream: narrowing / stores on x[k1][k2], x.a.b
+# pyanalyze keeps narrowed / stored values for "composite variables" (a name followed by literal subscripts / attributes);
+# assigning to a prefix must forget every composite below it (stacked_scopes.py FunctionScope.set / _add_composite).
+# The functions of this stream mutate their arguments only through the parameter's own name (no aliases): every value
+# stored into a container is a fresh display / constructor call or a scalar.
+COMPOSITE_KINDS = {
+    # name: (root annotation, accessors per level: "k" str key | "i" int index, leaf type)
+    "DD": ("dict[str, dict[str, Optional[int]]]", ["k", "k"], "optint"),
+    "DDD": ("dict[str, dict[str, dict[str, Optional[int]]]]", ["k", "k", "k"], "optint"),
+    "LL": ("list[list[Optional[int]]]", ["i", "i"], "optint"),
+    "DL": ("dict[str, list[Union[int, str]]]", ["k", "i"], "intstr"),
+    "DLO": ("dict[str, list[Optional[int]]]", ["k", "i"], "optint"),
+    "OBJ": ("Top", None, None),
+}
+OBJ_PATHS = [(("mid",), "Mid"), (("mid", "leaf"), "Leaf"), (("mid", "n"), "optint"), (("mid", "leaf", "v"), "optint"),
+             (("mid", "leaf", "w"), "intstr")]
+
+
+class CompositeGen:
+    def __init__(self, rng, name, feats):
+        self.rng, self.name, self.feats = rng, name, feats
+        self.kind = rng.choice(["DD", "DD", "DDD", "LL", "DL", "DLO", "OBJ", "OBJ"])
+        self.counter = 0
+        self.focus = None     # the composite the function is about (narrowed most of the time)
+
+    def feat(self, k):
+        self.feats["c_" + k] = self.feats.get("c_" + k, 0) + 1
+
+    def leaf_src(self, tag, lit_only=False):
+        rng = self.rng
+        if tag == "optint":
+            return rng.choice(["None", "0", "1", "2", "None"] + ([] if lit_only else ["q", "q"]))
+        return rng.choice(["1", "'s'", "0", "''", "2"] + ([] if lit_only else ["w"]))
+
+    def value_src(self, depth, tag=None, lit_only=False):
+        """A FRESH value of the type found after `depth` accessors (a display / constructor call, or a scalar)."""
+        if self.kind == "OBJ":
+            if tag == "Top":
+                return "Top(%s)" % self.value_src(1, "Mid", lit_only)
+            if tag == "Mid":
+                return "Mid(%s, %s)" % (self.value_src(2, "Leaf", lit_only), self.leaf_src("optint", lit_only))
+            if tag == "Leaf":
+                return "Leaf(%s, %s)" % (self.leaf_src("optint", lit_only), self.leaf_src("intstr", lit_only))
+            return self.leaf_src(tag, lit_only)
+        _, levels, leaf = COMPOSITE_KINDS[self.kind]
+        if depth == len(levels):
+            return self.leaf_src(leaf, lit_only)
+        if levels[depth] == "k":
+            return "{'a': %s, 'b': %s}" % (self.value_src(depth + 1, None, lit_only), self.value_src(depth + 1, None, lit_only))
+        return "[%s, %s]" % (self.value_src(depth + 1, None, lit_only), self.value_src(depth + 1, None, lit_only))
+
+    def all_paths(self):
+        """[(accessor tuple, type tag)] of every composite of depth 1..n"""
+        if self.kind == "OBJ":
+            return list(OBJ_PATHS)
+        _, levels, leaf = COMPOSITE_KINDS[self.kind]
+        out = []
+
+        def go(prefix, d):
+            if d == len(levels):
+                return
+            for key in (("a", "b") if levels[d] == "k" else (0, 1)):
+                pth = prefix + (key,)
+                out.append((pth, leaf if d + 1 == len(levels) else "node%d" % (d + 1)))
+                go(pth, d + 1)
+        go((), 0)
+        return out
+
+    def path_src(self, path):
+        if self.kind == "OBJ":
+            return "r" + "".join("." + a for a in path)
+        return "r" + "".join("[%r]" % k for k in path)
+
+    def pick(self, leaf_only=False, prefix_of=None):
+        paths = self.all_paths()
+        if prefix_of is not None:
+            cands = [pt for pt in paths if len(pt[0]) < len(prefix_of) and prefix_of[:len(pt[0])] == pt[0]]
+            if cands:
+                return self.rng.choice(cands)
+        if leaf_only:
+            paths = [pt for pt in paths if pt[1] in ("optint", "intstr")]
+        if self.focus is not None and self.rng.random() < 0.55:
+            same = [pt for pt in paths if pt[0] == self.focus]
+            if same:
+                return same[0]
+        return self.rng.choice(paths)
+
+    def fresh(self, p="v"):
+        self.counter += 1
+        return "%s%d" % (p, self.counter)
+
+    def tag_depth(self, path):
+        return len(path)
+
+    def block(self, ind, budget, nest):
+        rng = self.rng
+        p = "    " * ind
+        lines = []
+        while budget[0] > 0:
+            budget[0] -= 1
+            r = rng.random()
+            if r < 0.22 and nest > 0:
+                path, tag = self.pick(leaf_only=True)
+                self.focus = path
+                src = self.path_src(path)
+                form = rng.choice(["notnone", "notnone", "isint", "eq", "none_return"] if tag == "optint" else ["isint", "isstr", "eq", "isint"])
+                self.feat("narrow_" + form + "_d%d" % len(path))
+                if form == "none_return":
+                    lines += [p + "if %s is None:" % src, p + "    return 0"]
+                    continue
+                cond = {"notnone": "%s is not None" % src, "isint": "isinstance(%s, int)" % src, "isstr": "isinstance(%s, str)" % src,
+                        "eq": "%s == 1" % src}[form]
+                lines.append(p + "if %s:" % cond)
+                lines += self.block(ind + 1, budget, nest - 1) or [p + "    pass"]
+                if rng.random() < 0.3 and budget[0] > 0:
+                    lines.append(p + "else:")
+                    lines += self.block(ind + 1, budget, nest - 1) or [p + "    pass"]
+            elif r < 0.40:
+                # store to a composite / reassign a proper prefix (the root included)
+                if self.focus is not None and rng.random() < 0.6:
+                    if rng.random() < 0.3:
+                        self.feat("assign_root")
+                        lines.append(p + "r = " + self.value_src(0, "Top"))
+                        continue
+                    path, tag = self.pick(prefix_of=self.focus)
+                    self.feat("assign_prefix_d%d" % len(path))
+                else:
+                    path, tag = self.pick()
+                    self.feat("store_d%d" % len(path))
+                lines.append(p + "%s = %s" % (self.path_src(path), self.value_src(len(path), tag)))
+            elif r < 0.75:
+                path, tag = self.pick()
+                self.feat("read_d%d" % len(path))
+                lines.append(p + "%s = %s" % (self.fresh(), self.path_src(path)))
+            elif r < 0.83 and nest > 0:
+                self.feat("for")
+                lines.append(p + "for %s in range(2):" % self.fresh("i"))
+                lines += self.block(ind + 1, budget, nest - 1) or [p + "    pass"]
+            elif r < 0.92 and nest > 0:
+                self.feat("ifelse")
+                lines.append(p + "if c:")
+                lines += self.block(ind + 1, budget, nest - 1) or [p + "    pass"]
+                lines.append(p + "else:")
+                lines += self.block(ind + 1, budget, nest - 1) or [p + "    pass"]
+            else:
+                if ind > 1 and rng.random() < 0.5:
+                    break
+        return lines
+
+    def generate(self):
+        rng = self.rng
+        ann = COMPOSITE_KINDS[self.kind][0]
+        head = "def %s(r: %s, q: Optional[int], w: Union[int, str], c: bool) -> int:" % (self.name, ann)
+        body = self.block(1, [rng.randint(4, 10)], 3)
+        body.append("    return 0")
+        self.feat("kind_" + self.kind)
+        argsets = []
+        for _ in range(3):
+            argsets.append({"src": [self.value_src(0, "Top", lit_only=True), rng.choice(["None", "0", "1", "2"]),
+                                    rng.choice(["1", "'s'", "0"]), rng.choice(["True", "False"])]})
+        return {"name": self.name, "ptypes": [], "ret": T(INT), "src": "\n".join([head] + body), "num_eq": False}, argsets
+
+
+def composite_stream(ctx, stats, feats, on_exec):
+    """Returns (failures, modules): functions of the COMPOSITE grammar, judged like the rest."""
+    rng = ctx.rng
+    n_fns = ctx.n(200, 4000)
+    per_mod = 25
+    failures, modules = [], {}
+    for m in range((n_fns + per_mod - 1) // per_mod):
+        fns, args = [], {}
+        for i in range(per_mod):
+            f, a = CompositeGen(rng, "k%d" % i, feats).generate()
+            fns.append(f)
+            args[f["name"]] = a
+        try:
+            fl, _ = judge_module(fns, args, stats, on_exec)
+        except Exception as e:
+            ctx.notes.append("composite module %d: %s" % (m, traceback.format_exc()[-600:]))
+            ctx.tag("module_crash_" + type(e).__name__)
+            continue
+        if m == 0 and fns:
+            ctx.sample({"composite_function": fns[0]["src"], "arguments": args[fns[0]["name"]][0]["src"]})
+        for f in fl:
+            f["module"] = id(fns)
+            f["stream"] = "composite"
+        if fl:
+            modules[id(fns)] = fns
+        failures += fl
+    return failures, modules
 
 
 def corpus_entries():
@@ -3160,7 +3456,7 @@ def exec_stream(ctx, with_model=True):
         if ent.get("kind") != "exec":
             continue
         fns = load_fns(ent["fns"])
-        fl, _ = judge_module(fns, {ent["fn"]: [[totuple(o) for o in ent["args"]]]}, stats, on_exec)
+        fl, _ = judge_module(fns, {ent["fn"]: [args_from_json(ent["args"])]}, stats, on_exec)
         ctx.tag("corpus_exec")
         for f in fl:
             f["module"] = id(fns)
@@ -3182,6 +3478,9 @@ def exec_stream(ctx, with_model=True):
         if fl:
             modules[id(fns)] = fns
         all_failures += fl
+    cfl, cmods = composite_stream(ctx, stats, feats, on_exec)
+    all_failures += cfl
+    modules.update(cmods)
     for k, v in stats.items():
         ctx.tag("x_" + k, v)
     for k, v in feats.items():
@@ -3254,7 +3553,7 @@ def replay(ctx, data):
     if "fns" in case:
         fns = load_fns(case["fns"])
         stats = {}
-        fl, src = judge_module(fns, {case["fn"]: [[totuple(o) for o in case["args"]]]}, stats)
+        fl, src = judge_module(fns, {case["fn"]: [args_from_json(case["args"])]}, stats)
         for f in fl:
             f["module"] = 0
         classify(ctx, fl, lambda f: next((g["src"] for g in fns if g["name"] == f["owner"]), None))
